@@ -25,7 +25,8 @@ MANIFEST_ENTRY = {
 PROP = "C03"
 LEVEL = "proof"
 THEOREMS = ["C03_solutions_eq", "C03_treeAt_eq_get", "C03_index_in_range", "C03_index_oob",
-            "C03_repeat_access"]
+            "C03_repeat_access", "C03_trees_pairwise_distinct", "C03_index_injective",
+            "C03_first_tree_is_index_zero"]
 META = {
     "rule": "cases = (grammar, table kind, input) whose GLR parse returns a forest; the forest is dumped "
             "(Parent objects numbered topologically) and the Lean forest model computes len, ambiguities, "
